@@ -324,6 +324,23 @@ def rule_kc_output(prog):
             slot = param_of(t["args"][1])
         elif short == "output_non_mods_for_input_non_mod" and len(t["args"]) > 1:
             looked.append((bi, t, param_of(t["args"][1])))
+    chained_last = None
+    if not pushed and looked and slot is not None:
+        # `for o in overrides.output_non_mods_for_input_non_mod(osc).into_iter().chain(once(osc)) { push(o) }`: the key's own code is
+        # the parameter given to once(), chained *behind* the override outputs
+        onces = {bi: param_of(t["args"][0]) for bi, t in f.calls() if (callee_name(t) or "").split("::")[-1] == "once" and t["args"]}
+        for bi, t in f.calls():
+            if (callee_name(t) or "").split("::")[-1] != "chain" or len(t["args"]) != 2:
+                continue
+            r0, r1 = R.root(t["args"][0]), R.root(t["args"][1])
+            first_is_lookup = r0[0] == "call" and r0[1][0] in [lb for lb, _t, _p in looked]
+            second_once = r1[0] == "call" and r1[1][0] in onces and onces[r1[1][0]] is not None
+            if first_is_lookup and second_once:
+                pushed.add(onces[r1[1][0]])
+                chained_last = True
+            elif r1[0] == "call" and r1[1][0] in [lb for lb, _t, _p in looked] and r0[0] == "call" and r0[1][0] in onces:
+                pushed.add(onces[r0[1][0]])
+                chained_last = False
     if len(pushed) != 1 or not looked or slot is None:
         res.viol("anchor/shape", f.loc, "add_kc_output: the parameter pushed as output (%s), the slot (%s) or the override lookup (%d) were not "
                                         "recognised" % (sorted(pushed), slot, len(looked)))
@@ -332,6 +349,8 @@ def rule_kc_output(prog):
     # the repeat handler walks the list from the back: the key's own code is pushed after the outputs of its overrides
     own_push = [bi for bi, t in f.calls() if (callee_name(t) or "").split("::")[-1] == "push" and len(t["args"]) > 1 and param_of(t["args"][1]) == out]
     ok_last = bool(own_push) and all(any(f.dominates(lb, pb) for lb, _t, _p in looked) for pb in own_push)
+    if chained_last is not None:
+        ok_last = chained_last
     res.inst("own-key-after-override-outputs", where=f.loc, ok=ok_last)
     res.oblige(ok_last)
     if not ok_last:
